@@ -390,9 +390,10 @@ func init() {
 	register(&Property{
 		ID: "C19",
 		Explanation: "Decides structural necessary conditions of 'error recovery is safe' on the generated recoverFromError/skipBrokenCode/parse of tm and js (hand-written sibling): VARIANT: every back edge of the recovery search loop follows the removal of the current token from the finite recovery set and is guarded by an end-of-input return; the skip loop fetches a token per iteration; parse resets the error-suppression counter when it is parser state. " +
-			"CODEC(parser): packed-table reads made while simulating reductions (reduceAll, gotoState) are bounds-guarded. Not decided: monotonic offsets, transparency on valid input. TYPESTATE(recoveryMode): in js's hand-written parse loop stream.recoveryMode is true on every path to recoverFromError (constant propagation over the CFG). RESET(histogram): the default-reduction histogram of Optimize is zeroed over exactly the range that is read back. GUARD(eoi-skip): the token-skipping loop of recovery (generated and js) advances the lookahead only behind p.next.symbol != eoiToken on every path (recovery terminates at the end of input). GUARD(nil-stack): js TokenStream.next indexes its stack parameter only on the false edge of s.recoveryMode (recovery fetches tokens with a nil stack).",
-		Rules: []string{"TYPESTATE(recoveryMode)", "RESET(histogram)", "VARIANT", "CODEC(parser)", "GUARD(eoi-skip)", "GUARD(nil-stack)"},
+			"CODEC(parser): packed-table reads made while simulating reductions (reduceAll, gotoState) are bounds-guarded. Not decided: monotonic offsets, transparency on valid input. TYPESTATE(recoveryMode): in js's hand-written parse loop stream.recoveryMode is true on every path to recoverFromError (constant propagation over the CFG). RESET(histogram): the default-reduction histogram of Optimize is zeroed over exactly the range that is read back. GUARD(eoi-skip): the token-skipping loop of recovery (generated and js) advances the lookahead only behind p.next.symbol != eoiToken on every path (recovery terminates at the end of input). GUARD(nil-stack): js TokenStream.next indexes its stack parameter only on the false edge of s.recoveryMode (recovery fetches tokens with a nil stack). THRESHOLD(is-recovering): the value the compiler stores into IsRecovering is the non-emptiness test of the set of terminals that can follow the error token (recovery code is generated for every grammar that uses error).",
+		Rules: []string{"TYPESTATE(recoveryMode)", "RESET(histogram)", "VARIANT", "CODEC(parser)", "GUARD(eoi-skip)", "GUARD(nil-stack)", "THRESHOLD(is-recovering)"},
 		Run: func(c *Ctx) {
+			ruleISRECOVERING(c)
 			ruleRECMODE(c)
 			ruleRESET(c, "lalr")
 			ruleRECOVERY(c)
